@@ -545,13 +545,15 @@ def src_CheckProposerMessage_headerChecks : List String := [%s]
 	adIdents["b.HighQC == nil"] = "(!hasLock)"
 	adIdents["b.HighQC.Header"] = "lock"
 	adIdents["vote.HighQc.Header"] = "new"
+	adIdents["vote.Qc.Header"] = "voteHdr" // the ELECTION_VOTE's own header: available to the condition, so that a change that
+	// compares against it still translates and the obligation about the comparison is what breaks
 	adTr := &g.Translator{Cfg: g.Config{Idents: adIdents, Calls: map[string]func([]string) (string, error){},
 		Methods: map[string]func(string, []string) (string, error){"Less": less, "Equals": equals}}}
 	ae, err := adTr.Expr(adopt.Cond)
 	if err != nil {
 		return "", fmt.Errorf("HighQC replacement condition %q: %v", g.ExprText(adopt.Cond), err)
 	}
-	fmt.Fprintf(&b, "/-- bft/vote.go handleHighQCVDFAndEvidence: `if %s { b.HighQC = vote.HighQc ... }` -/\ndef adoptHigher (hasLock : Bool) (lock new : View) : Bool := %s\n", g.ExprText(adopt.Cond), ae)
+	fmt.Fprintf(&b, "/-- bft/vote.go handleHighQCVDFAndEvidence: `if %s { b.HighQC = vote.HighQc ... }` -/\ndef adoptHigher (hasLock : Bool) (lock new voteHdr : View) : Bool := %s\n", g.ExprText(adopt.Cond), ae)
 	fmt.Fprintf(&b, "def src_adoptHigher_body : String := %q\n", g.StmtsText(bftDropStmts(adopt.Body.List, isLog)))
 
 	// ---- handleHighQCVDFAndEvidence: who processes the payload of an ELECTION_VOTE, and the lock must carry its proposal
